@@ -24,6 +24,7 @@ import HtmlVerif.Generated.Src
 import HtmlVerif.Lemmas.SrcC18
 import HtmlVerif.Props.SrcC10
 import HtmlVerif.Props.SrcRender
+import HtmlVerif.Model.ReadOps
 
 set_option linter.unusedVariables false
 set_option linter.unusedSimpArgs false
@@ -588,5 +589,220 @@ theorem src_TagList_render_spec (h : TagList_render_available = true)
   rw [src_TagList_render h ht1 ht2 hd1 hd2 hr hg1 hg2 hn he hs cfg ht ha m sha xf hx (tvSpecC18 xf) (tvSpecC18_ok xf) ks fuel hf1
     (by rw [C09.C09_tagify_is_spec]; exact hf2)]
   simp only [embRenderedC18, hspec.1, hspec.2]
+
+/-! ## the string views: `_render_tag_or_taglist`, `Tag.__str__`, `TagList.__str__` -/
+
+/-- `html_dependency_render_mode` as the Python value the package attribute holds -/
+def embModeC18 : Ident.RenderMode → PVal
+  | .invisible => .str ['i', 'n', 'v', 'i', 's', 'i', 'b', 'l', 'e']
+  | .json => .str ['j', 's', 'o', 'n']
+
+/-- the field the primitive `pySerializeToScriptJsonC18` reads: every dependency object records, under
+    `serialize_to_script_json`, the `<script>` Tag the model says the (untranslated) method returns for it
+    (`serNode`, Model/TextDoc.lean) -/
+def xfSerC18 (cfg : Cfg) : XfC18 := fun d hh hd =>
+  [("serialize_to_script_json", embC18 xfNilC18 (fun _ => PVal.none) (serNode none (sdepOfNode cfg d hh hd)))]
+
+theorem xfSerC18_ok (cfg : Cfg) : XfOkC18 (xfSerC18 cfg) :=
+  fun _ _ _ => ⟨by simp [xfSerC18, fieldGet?], by simp [xfSerC18]⟩
+
+theorem pySerialize_dep_C18 (cfg : Cfg) (tv : Node → PVal) (e : Tagify.DepEntry) :
+    pySerializeToScriptJsonC18 (embC18 (xfSerC18 cfg) tv (depNodeC18 e))
+      = .ok (embC18 xfNilC18 (fun _ => PVal.none) (serNode none (sdepOfNode cfg e.1 e.2.1 e.2.2))) := by
+  simp [depNodeC18, embC18, pySerializeToScriptJsonC18, embDepFields, fieldGet?, xfSerC18]
+
+/-- **`_render_tag_or_taglist(x)`** as the source has it = `strOfRendered` (Model/ReadOps.lean) of what `x.render()`
+    returns, in both render modes: given the tie of `x.render()` for the receiver at hand.  `hser` is a condition on the
+    tables: the serialised `<script>` element is rendered verbatim (C13_element_render, for the tables of the source). -/
+theorem src_render_tag_or_taglist_gen (h : render_tag_or_taglist_available = true)
+    (hg1 : Tag_get_html_string_available = true) (hg2 : TagList_get_html_string_available = true)
+    (hn : normalize_text_available = true) (he : html_escape_available = true) (hs : HTML_as_string_available = true)
+    (cfg : Cfg) (ht : keysPlain cfg.textTbl = true) (ha : keysPlain cfg.attrTbl = true)
+    (hser : ∀ d : SDep, (serNode none d).render cfg 0 ['\n'] = tdSerialize none d)
+    (mode : Ident.RenderMode) (sha : Str → Option Str) (tv : Node → PVal) (x : PVal) (r : Rendered) (f : Nat) (hf : 2 ≤ f)
+    (hcls : pyClassOf x = "Tag" ∨ pyClassOf x = "TagList")
+    (hT : pyClassOf x = "Tag" →
+      Tag_render (globalsC18 cfg (embModeC18 mode) sha) f x = embRenderedC18 (xfSerC18 cfg) tv r)
+    (hL : pyClassOf x = "TagList" →
+      TagList_render (globalsC18 cfg (embModeC18 mode) sha) f x = embRenderedC18 (xfSerC18 cfg) tv r) :
+    render_tag_or_taglist (globalsC18 cfg (embModeC18 mode) sha) (f + 1) x
+      = embRes PVal.str (Ident.strOfRendered cfg mode r) := by
+  first
+  | exact absurd h (by decide)
+  | skip
+  all_goals (
+    rw [render_tag_or_taglist]
+    have hrender : ∀ d : SDep, Tag_get_html_string (globalsC18 cfg (embModeC18 mode) sha) f
+        (embC18 xfNilC18 (fun _ => PVal.none) (serNode none d)) (PVal.int 0) (PVal.str [Char.ofNat 10])
+          = .ok (.str (tdSerialize none d)) := by
+      intro d
+      have := src_render_tag_C18 hg1 hg2 hn he hs cfg ht ha (embModeC18 mode) sha xfNilC18 (fun _ => PVal.none)
+        (serNode none d) rfl f (by simp [serNode, nodeDepth, kidsDepth]; omega) 0 ['\n']
+      rw [hser d] at this
+      simpa [serNode, Node.hasTobj, Nodes.visible, Node.isMeta, inlineChild?] using this
+    have hclsS : ∀ d : SDep, pyClassOf (embC18 xfNilC18 (fun _ => PVal.none) (serNode none d)) = "Tag" := fun _ => rfl
+    have hR : (pyClassOf x = "Tag" ∧ Tag_render (globalsC18 cfg (embModeC18 mode) sha) f x = embRenderedC18 (xfSerC18 cfg) tv r)
+        ∨ (pyClassOf x = "TagList" ∧ TagList_render (globalsC18 cfg (embModeC18 mode) sha) f x = embRenderedC18 (xfSerC18 cfg) tv r) := by
+      rcases hcls with hc | hc
+      · exact Or.inl ⟨hc, hT hc⟩
+      · exact Or.inr ⟨hc, hL hc⟩
+    rcases hR with ⟨hc, e⟩ | ⟨hc, e⟩ <;> simp only [hc, e, embRenderedC18, Ident.strOfRendered] <;> (
+      cases hh : r.html with
+      | error e => cases mode <;> simp [embRes]
+      | ok html =>
+        have hdeps : pyGetItem (PVal.dict [(kDependenciesC18, PVal.list (r.deps.map fun e => embC18 (xfSerC18 cfg) tv (depNodeC18 e))),
+            (kHtmlC18, PVal.str html)]) (PVal.str ['d', 'e', 'p', 'e', 'n', 'd', 'e', 'n', 'c', 'i', 'e', 's'])
+            = .ok (PVal.list (r.deps.map fun e => embC18 (xfSerC18 cfg) tv (depNodeC18 e))) := by
+          simp [pyGetItem, dictGet?, kDependenciesC18]
+        have hhtml : pyGetItem (PVal.dict [(kDependenciesC18, PVal.list (r.deps.map fun e => embC18 (xfSerC18 cfg) tv (depNodeC18 e))),
+            (kHtmlC18, PVal.str html)]) (PVal.str ['h', 't', 'm', 'l']) = .ok (PVal.str html) := by
+          simp [pyGetItem, dictGet?, kDependenciesC18, kHtmlC18]
+        simp only [ok_bind, pure_eq_ok, globalsC18_mode, hhtml]
+        cases mode with
+        | invisible =>
+          have hmode : pyEq (embModeC18 .invisible) (PVal.str ['j', 's', 'o', 'n']) = .ok (.bool false) := by
+            simp [embModeC18, pyEq]
+          simp [hmode, embRes]
+        | json =>
+          have hmode : pyEq (embModeC18 .json) (PVal.str ['j', 's', 'o', 'n']) = .ok (.bool true) := by
+            simp [embModeC18, pyEq]
+          simp only [hdeps, hmode, ok_bind, truthy_bool, if_true, pyIter_list]
+          rw [map_loop_C18 (fun e => embC18 (xfSerC18 cfg) tv (depNodeC18 e))
+            (fun e => PVal.str (tdSerialize none (sdepOfNode cfg e.1 e.2.1 e.2.2))) r.deps _
+            (by intro e _ s; simp only [pySerialize_dep_C18, ok_bind, pure_eq_ok, hclsS, hrender])]
+          rw [show (r.deps.map fun e => PVal.str (tdSerialize none (sdepOfNode cfg e.1 e.2.1 e.2.2)))
+              = ((r.deps.map fun e => sdepOfNode cfg e.1 e.2.1 e.2.2).map (tdSerialize none)).map PVal.str by
+            simp [List.map_map, Function.comp_def]]
+          simp only [ok_bind, pure_eq_ok, pyJoin, pyIter_list, strsOf_map_str, pyAdd_str, pyStr_str]
+          simp [embRes, jsonModeStr]))
+
+/-- **`_render_tag_or_taglist(taglist)`** = `strViewList` (the definition `C08_views_list` is about), both modes, every tree -/
+theorem src_render_tag_or_taglist_list (h : render_tag_or_taglist_available = true) (h' : TagList_render_available = true)
+    (ht1 : Tag_tagify_available = true) (ht2 : TagList_tagify_available = true)
+    (hd1 : Tag_get_dependencies_available = true) (hd2 : TagList_get_dependencies_available = true)
+    (hr : resolve_dependencies_available = true)
+    (hg1 : Tag_get_html_string_available = true) (hg2 : TagList_get_html_string_available = true)
+    (hn : normalize_text_available = true) (he : html_escape_available = true) (hs : HTML_as_string_available = true)
+    (cfg : Cfg) (ht : keysPlain cfg.textTbl = true) (ha : keysPlain cfg.attrTbl = true)
+    (hser : ∀ d : SDep, (serNode none d).render cfg 0 ['\n'] = tdSerialize none d)
+    (mode : Ident.RenderMode) (sha : Str → Option Str) (tv : Node → PVal) (htv : TvOkC18 (xfSerC18 cfg) tv)
+    (ks : Nodes) (fuel : Nat) (hf1 : 2 * kidsDepth ks + 3 ≤ fuel) (hf2 : 2 * kidsDepth (tagifyNodes ks) + 3 ≤ fuel) :
+    render_tag_or_taglist (globalsC18 cfg (embModeC18 mode) sha) fuel (tagListOf (embsC18 (xfSerC18 cfg) tv ks))
+      = embRes PVal.str (Ident.strViewList cfg mode ks) := by
+  obtain ⟨f, rfl⟩ : ∃ f, fuel = f + 1 := ⟨fuel - 1, by omega⟩
+  exact src_render_tag_or_taglist_gen h hg1 hg2 hn he hs cfg ht ha hser mode sha tv _ (renderOfList cfg ks) f (by omega)
+    (Or.inr rfl) (fun hc => by simp [tagListOf, pyClassOf] at hc)
+    (fun _ => src_TagList_render h' ht1 ht2 hd1 hd2 hr hg1 hg2 hn he hs cfg ht ha _ sha _ (xfSerC18_ok cfg) tv htv ks f
+      (by omega) (by omega))
+
+/-- **`_render_tag_or_taglist(tag)`** = `strView` (the definition `C08_views` is about), both modes, every tag tree -/
+theorem src_render_tag_or_taglist_tag (h : render_tag_or_taglist_available = true) (h' : Tag_render_available = true)
+    (ht1 : Tag_tagify_available = true) (ht2 : TagList_tagify_available = true)
+    (hd1 : Tag_get_dependencies_available = true) (hd2 : TagList_get_dependencies_available = true)
+    (hr : resolve_dependencies_available = true)
+    (hg1 : Tag_get_html_string_available = true) (hg2 : TagList_get_html_string_available = true)
+    (hn : normalize_text_available = true) (he : html_escape_available = true) (hs : HTML_as_string_available = true)
+    (cfg : Cfg) (ht : keysPlain cfg.textTbl = true) (ha : keysPlain cfg.attrTbl = true)
+    (hser : ∀ d : SDep, (serNode none d).render cfg 0 ['\n'] = tdSerialize none d)
+    (mode : Ident.RenderMode) (sha : Str → Option Str) (tv : Node → PVal) (htv : TvOkC18 (xfSerC18 cfg) tv)
+    (t : Node) (htag : t.isTag = true) (fuel : Nat)
+    (hf1 : 2 * nodeDepth t + 3 ≤ fuel) (hf2 : 2 * nodeDepth (tagifyTag t) + 3 ≤ fuel) :
+    render_tag_or_taglist (globalsC18 cfg (embModeC18 mode) sha) fuel (embC18 (xfSerC18 cfg) tv t)
+      = embRes PVal.str (Ident.strView cfg mode t) := by
+  obtain ⟨f, rfl⟩ : ∃ f, fuel = f + 1 := ⟨fuel - 1, by omega⟩
+  have hc : pyClassOf (embC18 (xfSerC18 cfg) tv t) = "Tag" := by cases t <;> simp [Node.isTag] at htag; rfl
+  exact src_render_tag_or_taglist_gen h hg1 hg2 hn he hs cfg ht ha hser mode sha tv _ (renderOfTag cfg t) f (by omega)
+    (Or.inl hc)
+    (fun _ => src_Tag_render h' ht1 ht2 hd1 hd2 hr hg1 hg2 hn he hs cfg ht ha _ sha _ (xfSerC18_ok cfg) tv htv t htag f
+      (by omega) (by omega))
+    (fun hc' => by rw [hc] at hc'; exact absurd hc' (by decide))
+
+/-- **`TagList.__str__`**: `return _render_tag_or_taglist(self)` -/
+theorem src_TagList_str (h0 : TagList_str_available = true)
+    (h : render_tag_or_taglist_available = true) (h' : TagList_render_available = true)
+    (ht1 : Tag_tagify_available = true) (ht2 : TagList_tagify_available = true)
+    (hd1 : Tag_get_dependencies_available = true) (hd2 : TagList_get_dependencies_available = true)
+    (hr : resolve_dependencies_available = true)
+    (hg1 : Tag_get_html_string_available = true) (hg2 : TagList_get_html_string_available = true)
+    (hn : normalize_text_available = true) (he : html_escape_available = true) (hs : HTML_as_string_available = true)
+    (cfg : Cfg) (ht : keysPlain cfg.textTbl = true) (ha : keysPlain cfg.attrTbl = true)
+    (hser : ∀ d : SDep, (serNode none d).render cfg 0 ['\n'] = tdSerialize none d)
+    (mode : Ident.RenderMode) (sha : Str → Option Str) (tv : Node → PVal) (htv : TvOkC18 (xfSerC18 cfg) tv)
+    (ks : Nodes) (fuel : Nat) (hf1 : 2 * kidsDepth ks + 4 ≤ fuel) (hf2 : 2 * kidsDepth (tagifyNodes ks) + 4 ≤ fuel) :
+    TagList_str (globalsC18 cfg (embModeC18 mode) sha) fuel (tagListOf (embsC18 (xfSerC18 cfg) tv ks))
+      = embRes PVal.str (Ident.strViewList cfg mode ks) := by
+  first
+  | exact absurd h0 (by decide)
+  | skip
+  all_goals (
+    obtain ⟨f, rfl⟩ : ∃ f, fuel = f + 1 := ⟨fuel - 1, by omega⟩
+    rw [TagList_str]
+    rw [src_render_tag_or_taglist_list h h' ht1 ht2 hd1 hd2 hr hg1 hg2 hn he hs cfg ht ha hser mode sha tv htv ks f
+      (by omega) (by omega)]
+    try (cases Ident.strViewList cfg mode ks <;> rfl))
+
+/-- **`Tag.__str__`**: `return _render_tag_or_taglist(self)` -/
+theorem src_Tag_str (h0 : Tag_str_available = true)
+    (h : render_tag_or_taglist_available = true) (h' : Tag_render_available = true)
+    (ht1 : Tag_tagify_available = true) (ht2 : TagList_tagify_available = true)
+    (hd1 : Tag_get_dependencies_available = true) (hd2 : TagList_get_dependencies_available = true)
+    (hr : resolve_dependencies_available = true)
+    (hg1 : Tag_get_html_string_available = true) (hg2 : TagList_get_html_string_available = true)
+    (hn : normalize_text_available = true) (he : html_escape_available = true) (hs : HTML_as_string_available = true)
+    (cfg : Cfg) (ht : keysPlain cfg.textTbl = true) (ha : keysPlain cfg.attrTbl = true)
+    (hser : ∀ d : SDep, (serNode none d).render cfg 0 ['\n'] = tdSerialize none d)
+    (mode : Ident.RenderMode) (sha : Str → Option Str) (tv : Node → PVal) (htv : TvOkC18 (xfSerC18 cfg) tv)
+    (t : Node) (htag : t.isTag = true) (fuel : Nat)
+    (hf1 : 2 * nodeDepth t + 4 ≤ fuel) (hf2 : 2 * nodeDepth (tagifyTag t) + 4 ≤ fuel) :
+    Tag_str (globalsC18 cfg (embModeC18 mode) sha) fuel (embC18 (xfSerC18 cfg) tv t)
+      = embRes PVal.str (Ident.strView cfg mode t) := by
+  first
+  | exact absurd h0 (by decide)
+  | skip
+  all_goals (
+    obtain ⟨f, rfl⟩ : ∃ f, fuel = f + 1 := ⟨fuel - 1, by omega⟩
+    rw [Tag_str]
+    rw [src_render_tag_or_taglist_tag h h' ht1 ht2 hd1 hd2 hr hg1 hg2 hn he hs cfg ht ha hser mode sha tv htv t htag f
+      (by omega) (by omega)]
+    try (cases Ident.strView cfg mode t <;> rfl))
+
+/-- the condition `hser` for the tables as they are in the source right now: the serialised element is rendered as OPEN,
+    the body verbatim, CLOSE (`script` is a no-escape tag; the two attribute values need no escaping) -/
+theorem src_ser_render_now_C18 (d : SDep) : (serNode none d).render cfgNow 0 ['\n'] = tdSerialize none d := by
+  have hne : (['s', 'c', 'r', 'i', 'p', 't'] : Str) ∈ cfgNow.noesc := by decide
+  have ha : htmlEscapeT cfgNow.attrTbl ['a', 'p', 'p', 'l', 'i', 'c', 'a', 't', 'i', 'o', 'n', '/', 'j', 's', 'o', 'n']
+      = ['a', 'p', 'p', 'l', 'i', 'c', 'a', 't', 'i', 'o', 'n', '/', 'j', 's', 'o', 'n'] := by decide
+  have hb : htmlEscapeT cfgNow.attrTbl [] = [] := by decide
+  simp [serNode, Node.render, Nodes.visible, Node.isMeta, inlineChild?, inlineText, hne, openTag, renderAttrs,
+    emitAttrVal, ha, hb, closeTag, indentStr, tdSerialize, openMarker, closeMarker]
+
+/-- `str(taglist)` for the tables of the source as they are now, in both render modes -/
+theorem src_TagList_str_now (h0 : TagList_str_available = true)
+    (h : render_tag_or_taglist_available = true) (h' : TagList_render_available = true)
+    (ht1 : Tag_tagify_available = true) (ht2 : TagList_tagify_available = true)
+    (hd1 : Tag_get_dependencies_available = true) (hd2 : TagList_get_dependencies_available = true)
+    (hr : resolve_dependencies_available = true)
+    (hg1 : Tag_get_html_string_available = true) (hg2 : TagList_get_html_string_available = true)
+    (hn : normalize_text_available = true) (he : html_escape_available = true) (hs : HTML_as_string_available = true)
+    (mode : Ident.RenderMode) (ks : Nodes) :
+    TagList_str (globalsC18 cfgNow (embModeC18 mode) (fun _ => none))
+        (2 * max (kidsDepth ks) (kidsDepth (tagifyNodes ks)) + 4)
+        (tagListOf (embsC18 (xfSerC18 cfgNow) (tvSpecC18 (xfSerC18 cfgNow)) ks))
+      = embRes PVal.str (Ident.strViewList cfgNow mode ks) :=
+  src_TagList_str h0 h h' ht1 ht2 hd1 hd2 hr hg1 hg2 hn he hs cfgNow src_tables_ok.1 src_tables_ok.2.1 src_ser_render_now_C18
+    mode _ _ (tvSpecC18_ok _) ks _ (by omega) (by omega)
+
+/-! ## `hash_deterministic` -/
+
+/-- `hash_deterministic(s)`: `hashlib.sha1(s.encode("utf-8")).hexdigest()` is the digest function `H` the interpreter
+    supplies (a parameter of the model, `headContent … H …`; the driver runs the executable `Model/Sha1.lean`) -/
+theorem src_hash_deterministic (h : hash_deterministic_available = true) (cfg : Cfg) (m : PVal) (H : Str → Str) (s : Str) :
+    hash_deterministic (globalsC18 cfg m (fun x => some (H x))) (.str s) = .ok (.str (H s)) := by
+  first
+  | exact absurd h (by decide)
+  | skip
+  all_goals (
+    unfold hash_deterministic
+    simp [pySha1HexC18, globalsC18_sha])
 
 end HtmlVerif.SrcTie
